@@ -42,10 +42,17 @@ def gen(n):
         y = g(i)
         got = yield y
 
+def sub(n):
+    for k in range(n):
+        w2 = g(k * 100)
+        yield w2
+
 def gen2(n):
     for j in range(n):
         w = g(j * 10)
         yield w
+    # delegation: the values of sub() travel out through gen2's `yield from`
+    yield from sub(2)
 
 def outer(cb):
     z = 1
